@@ -432,8 +432,8 @@ func (w *widthAnalysis) width1(v ssa.Value) int {
 
 func (c *Ctx) rulePanicSources(rr *RuleRep, rs []*ssa.Function) {
 	tableFn := map[string]string{
-		"remainingLength": "write side: reached from serve only through the 2-byte acknowledgement bodies (pack(type, packUint16(id))); the overflow panic needs a body above 268,435,455 bytes",
-		"appendBytes":     "write side: length-prefix overflow panic concerns application-supplied strings, not peer bytes",
+		"remainingLength":      "write side: reached from serve only through the 2-byte acknowledgement bodies (pack(type, packUint16(id))); the overflow panic needs a body above 268,435,455 bytes",
+		"appendBytes":          "write side: length-prefix overflow panic concerns application-supplied strings, not peer bytes",
 		"(*pktPublish).Pack":   "write side: invalid-QoS panic concerns application-supplied messages (validated by ValidateMessage), not peer bytes",
 		"(*pktSubscribe).Pack": "write side: invalid-QoS panic concerns application-supplied subscriptions, not peer bytes",
 	}
@@ -597,7 +597,10 @@ func (c *Ctx) ruleMalformedEndsLink(rr *RuleRep) {
 		for in := range reach {
 			if ret, ok := in.(*ssa.Return); ok {
 				ev := c.Resolve(c.errResult(ret))
-				if ev == errV || func() bool { cl, _ := c.asCall(ev); return cl != nil && len(cl.Call.Args) > 0 && c.Resolve(cl.Call.Args[0]) == errV }() {
+				if ev == errV || func() bool {
+					cl, _ := c.asCall(ev)
+					return cl != nil && len(cl.Call.Args) > 0 && c.Resolve(cl.Call.Args[0]) == errV
+				}() {
 					good = true
 				}
 			}
